@@ -80,9 +80,21 @@ void Exec::release_all() {
   const int rslot = rtask >= 0 && rtask < 31 ? rtask : 31;
   sim_fctx.cur_call[rslot] = -2;
   sim_fctx.cur_op[rslot] = OP_LIFE_MODULE;
-  for (size_t i = 0; i < ptr.size(); ++i)
+  for (size_t i = 0; i < ptr.size(); ++i) {
+    if (ptr[i] && owned[i] == 3) {
+      ptr[i] = nullptr;
+      continue;
+    }
     if (ptr[i] && owned[i]) {
       sim_unfreeze(ptr[i]);
+      if (owned[i] == 1 && P.slots[i].reserve) {
+        uint64_t res = (P.slots[i].reserve + 63) & ~63ull;
+        uint8_t* b = P.slots[i].reserve_side == 0 ? ptr[i] : ptr[i] - res;
+        sim_unpoison(b, bytes[i] + res);
+        sim_release(b);
+        ptr[i] = nullptr;
+        continue;
+      }
       if (owned[i] == 2) {
         const Slot& s = P.slots[i];
         if (s.type == T_BIG)
@@ -98,6 +110,7 @@ void Exec::release_all() {
       }
       ptr[i] = nullptr;
     }
+  }
   if (!base) {
     set_cpu_mask(env.mask);
     if (env.protect_sources && (mods.size() || tabs.size())) sim_unfreeze_lib_blocks_since(lib_mark);
@@ -166,6 +179,22 @@ uint8_t* Exec::ensure_slot(int si) {
   }
   uint8_t* p;
   const bool fft64 = s.mod >= 0 && P.modules[s.mod].type == 0;
+  if (s.neighbor_of >= 0 && s.neighbor_of < si && !needs_align16(P, s)) {
+    // carve this buffer out of the reserve next to its host, touching it
+    const Slot& h = P.slots[s.neighbor_of];
+    uint8_t* hp = ptr[s.neighbor_of];
+    if (hp && owned[s.neighbor_of] == 1 && h.reserve >= nb && (nb % 8) == 0 && (bytes[s.neighbor_of] % 8) == 0) {
+      p = h.reserve_side == 0 ? hp + bytes[s.neighbor_of] : hp - nb;
+      sim_unpoison(p, nb);
+      if (nb) sim_fill(p, nb, fill, fseed);
+      ptr[si] = p;
+      bytes[si] = nb;
+      owned[si] = 3;  // lives inside the host's block
+      n_adjacent++;
+      n_prefill[fill % SIM_FILL_NKINDS]++;
+      goto placed;
+    }
+  }
   if (s.liballoc && fft64 && (s.type == T_BIG || s.type == T_DFT || s.type == T_PPOL || s.type == T_PMAT)) {
     const MODULE* m = (const MODULE*)mods[s.mod];
     sim_set_lib_fill(fill, fseed);
@@ -178,6 +207,13 @@ uint8_t* Exec::ensure_slot(int si) {
     else
       p = (uint8_t*)new_vmp_pmat(m, s.size, s.sl);
     owned[si] = 2;
+  } else if (s.reserve) {
+    // host of a future neighbour: one block, the reserve stays inaccessible (asan) until the neighbour is carved
+    uint64_t res = (s.reserve + 63) & ~63ull;
+    uint8_t* b = (uint8_t*)sim_alloc(nb + res, place, off8, fill, fseed, si);
+    p = s.reserve_side == 0 ? b : b + res;
+    sim_poison(s.reserve_side == 0 ? p + nb : b, res);
+    owned[si] = 1;
   } else {
     p = (uint8_t*)sim_alloc(nb, place, off8, fill, fseed, si);
     owned[si] = 1;
@@ -189,6 +225,7 @@ uint8_t* Exec::ensure_slot(int si) {
     n_off[off8 & 7]++;
   else
     n_exact++;
+placed:
   if (s.input) {
     if (s.type == T_ZV) {
       int64_t* z = (int64_t*)p;
@@ -336,7 +373,7 @@ void Exec::run_call(int idx) {
   const OpInfo& oi = op_info[c.op];
   if (!ready) setup_objects();
   uint8_t* p[5] = {nullptr, nullptr, nullptr, nullptr, nullptr};
-  for (int k = 0; k < oi.nslots; ++k) p[k] = ensure_slot(c.s[k]);
+  for (int k = oi.nslots - 1; k >= 0; --k) p[k] = ensure_slot(c.s[k]);  // sources first: an output may be carved next to one
 
   if (env.use_model) {
     std::string why;
@@ -403,7 +440,7 @@ void Exec::run_call(int idx) {
     if (written) continue;
     is_src[k] = true;
     src_hash[k] = hash_bytes(p[k], bytes[c.s[k]]);
-    if (env.protect_sources) {
+    if (env.protect_sources && !P.slots[c.s[k]].reserve && owned[c.s[k]] != 3) {
       sim_protect(p[k], 1);
       n_protect++;
     }
@@ -434,7 +471,7 @@ void Exec::run_call(int idx) {
     for (int k = 0; k < oi.nslots; ++k) poison_outside(P, c, c.s[k], p[k], bytes[c.s[k]], false);
   for (int k = 0; k < oi.nslots; ++k)
     if (is_src[k]) {
-      if (env.protect_sources) sim_protect(p[k], 0);
+      if (env.protect_sources && !P.slots[c.s[k]].reserve && owned[c.s[k]] != 3) sim_protect(p[k], 0);
       if (hash_bytes(p[k], bytes[c.s[k]]) != src_hash[k]) {
         Violation v;
         v.kind = "source-modified";
